@@ -7,15 +7,15 @@
 
     * `apply_past_untouched`, `apply_sequence_past`: immutability of the past, also for any
       sequence of applications at steps ≥ n0;
-    * `close_commutes`: running the handlers of non-connection keywords on a report step that is
+    * `close_commutes`: running the handlers of admissible keywords on a report step that is
       already closed (deferred WPIMULT applied, wells whose connections are all shut shut in) and
-      closing it again equals running them before closing — `end_report` commutes with every
-      property-channel handler of the modelled keyword set;
+      closing it again equals running them before closing — `end_report` and the deferred WPIMULT
+      commute with every property-channel handler of the modelled keyword set and with COMPLUMP;
     * `apply_eq_inline`: apply = the schedule of the deck with the substituted body written at
       the end of block n: same snapshots before n, `Sim` at n (everything but the marker) and at
       every step > n (where also the markers agree: both empty) — under the property's own
-      exception only: the body contains no connection keyword (COMPDAT, COMPLUMP, WELOPEN on
-      connections, WPIMULT);
+      exception only: the body contains no keyword that opens or shuts connections (COMPDAT,
+      WELOPEN on connections) and no WPIMULT (`noConnKw`; COMPLUMP is allowed);
     * `apply_sequence`: any list of applications with non-decreasing steps equals inlining all
       bodies in that order (induction over the list, with the stored blocks — which keep the
       bodies verbatim with `?` — as part of the invariant);
@@ -53,8 +53,8 @@ theorem close_commutes (k : Consts) (s t' : State) (body : List CKw) (hnc : body
 substituted body written at the end of block n: the snapshots before n are literally the same
 (`sa`), state n agrees in everything but the marker (`Sim sn' x`), every state after n agrees
 (`All2 Sim tail tail2`) and carries an empty marker on both sides.  The only hypothesis on the
-body is the property's exception: no connection keyword (`noConnKw`) — `end_report` may well have
-shut wells when step n was closed. -/
+body is the property's exception: no keyword that opens/shuts connections and no WPIMULT
+(`noConnKw`) — `end_report` may well have shut wells when step n was closed. -/
 theorem apply_eq_inline (k : Consts) (a : List (List CKw)) (blk : List CKw) (c : List (List CKw))
     (sa : List State) (s1 : State) (tail0 : List State) (body : List CKw) (W : List String)
     (bs' : List (List CKw)) (ss' : List State)
@@ -151,13 +151,14 @@ def blocks0 : List (List CKw) :=
     .ops "COMPDAT" [.compdat "P*" 0 0 1 1 1],
     .ops "WELOPEN" [.welopenW "P*" .open_],
     .ops "WPIMULT" [.wpimultG "P1" "f"]],
-   [.actionx "A", .ops "WEFAC" [.wefac "?" "e"], .ops "WELOPEN" [.welopenW "?" .open_], .endactio,
+   [.actionx "A", .ops "WEFAC" [.wefac "?" "e"], .ops "WELOPEN" [.welopenW "?" .open_], .ops "COMPLUMP" [.complump "?" 0 0 0 0 7], .endactio,
     .ops "WELOPEN" [.welopenC "P1" (some 2) 0 0 0 0 0]],
    [.ops "GEFAC" []]]
-def bodyA : List CKw := [.ops "WEFAC" [.wefac "?" "e"], .ops "WELOPEN" [.welopenW "?" .open_]]
+def bodyA : List CKw := [.ops "WEFAC" [.wefac "?" "e"], .ops "WELOPEN" [.welopenW "?" .open_], .ops "COMPLUMP" [.complump "?" 0 0 0 0 7]]
 def apps0 : List App := [(1, "A", ["P2", "P1"]), (2, "A", ["P1"])]
 
-def obs (s : State) : List (String × Status × Val) := s.p.wells.map fun (n, w) => (n, statusOf s.st n, w.efac)
+def obs (s : State) : List (String × Status × Val × Nat) :=
+  s.p.wells.map fun (n, w) => (n, statusOf s.st n, w.efac, ((connsOf s.c.m n).map (·.complnum)).sum)
 
 example : bodyA.all plainKw = true ∧ bodyA.all noConnKw = true := by decide
 example : nonDecr 0 apps0 = true := by decide
@@ -166,10 +167,10 @@ example : bodiesOK k0 blocks0 apps0 = true := by decide +kernel
 example : ((run k0 blocks0).toOption.map fun ss => ss.map fun s => (statusOf s.st "P1", (connsOf s.c.m "P1").map (·.pimult))) =
     some [(.open_, ["mul(1,f)"]), (.shut, ["mul(1,f)"]), (.shut, ["mul(1,f)"])] := by decide +kernel
 example : ((applySeq k0 blocks0 apps0).toOption.map fun r => r.2.map obs) =
-    some [[("P1", .open_, "1"), ("P2", .open_, "1")], [("P1", .shut, "e"), ("P2", .open_, "e")], [("P1", .shut, "e"), ("P2", .open_, "e")]] := by
+    some [[("P1", .open_, "1", 1), ("P2", .open_, "1", 1)], [("P1", .shut, "e", 7), ("P2", .open_, "e", 7)], [("P1", .shut, "e", 7), ("P2", .open_, "e", 7)]] := by
   decide +kernel
 example : ((inlineSeq k0 blocks0 apps0).toOption.bind fun b => (run k0 b).toOption.map fun ss => ss.map obs) =
-    some [[("P1", .open_, "1"), ("P2", .open_, "1")], [("P1", .shut, "e"), ("P2", .open_, "e")], [("P1", .shut, "e"), ("P2", .open_, "e")]] := by
+    some [[("P1", .open_, "1", 1), ("P2", .open_, "1", 1)], [("P1", .shut, "e", 7), ("P2", .open_, "e", 7)], [("P1", .shut, "e", 7), ("P2", .open_, "e", 7)]] := by
   decide +kernel
 example : sortW ["P1", "I1", "P2"] ["P2", "P1", "X"] = ["P1", "P2"] := by decide
 example : substOp ["P1", "P2"] (.welopenW "?" .shut) = [.welopenW "P1" .shut, .welopenW "P2" .shut] := by decide
